@@ -11,9 +11,31 @@
 //	    the rules inside the annotation            (diff "C08-order")
 //	(2) the verdict equals rulesOK(ctx, rules), a predicate written from the
 //	    property statement                          (diff "C08-spec")
-//	(3) rule names are spelled bare (min), quoted ("min") or mixed, also inside or
-//	    rule-sets; rulesOK does not see the spelling, and every set is re-checked
-//	    with all names bare and all names quoted: same verdict (diff "C08-spelling")
+//	(3) rule names are spelled bare (min), quoted ("min"), quoted with JSON escapes
+//	    ("m\u0069n" — the tree unquotes the name, [C23]) or mixed, also inside or rule-sets;
+//	    rulesOK does not see the spelling, and every set is re-checked with all names bare
+//	    and all names quoted: same verdict               (diff "C08-spelling")
+//	    NEAR-MISS names are the opposite: spellings that are NOT the rule (blanks inside
+//	    the quotes, other case, a junk / missing / doubled letter, an escaped blank or tab,
+//	    an escape in a bare name, the empty name, quotes inside the quotes): the set then
+//	    holds an unknown rule and rulesOK rejects it.
+//	(4) every case runs under both configurations — default and KeysAreOptionalByDefault()
+//	    (all orderings under one of them, alternating; the first and one more ordering
+//	    under the other): the option decides what a missing `optional` means, never the
+//	    verdict of Check                                   (diff "C08-option")
+//	(5) the verdict is a function of the schema text, not of the object's past: the first
+//	    ordering is checked again on an object that has seen a short random history of
+//	    other calls (UsedUserTypes, AddType of the used / of an unrelated type, Len, GetAST,
+//	    Example, Validate, Build, Check; results ignored): the final Check — and every
+//	    intermediate Check / Build / GetAST — must give the verdict and error code of a
+//	    fresh object's Check                               (diff "C08-history")
+//	(6) the rule-sets of `or` members are annotations too: generated `or` values hold an
+//	    anchor member of the example's kind plus rule-set members over the companion
+//	    matrix (pairs ordered / equal / reversed, exclusive flags with and without bound,
+//	    precision with and without decimal, format types with length / regex, any / @t /
+//	    enum with foreign rules, unknown, near-miss, duplicated and misplaced rules); the
+//	    example matches the anchor, so nothing but the consistency conditions themselves
+//	    (memberOK) decides; the rules inside the members are reordered as well.
 //
 // CALIBRATION DECISIONS — where the statement is silent or ambiguous the
 // unchanged tree was asked by experiment; every decision is a rule-level
@@ -73,6 +95,11 @@
 //	      known finding K-C04-or-container (a member of undetermined JSON type admits any
 //	      empty container); C08 follows the tree here and does not re-report it.
 //	      Inside a member rule-set enum excludes foreign rules and scalar types as at top level.
+//
+//	[C22] Rule x kind applicability is not demanded inside an `or` member rule-set (see memberOK).
+//	[C23] A rule name is the JSON string between the quotes after unquoting (escapes resolved),
+//	      blanks around the quoted or bare name do not count; blanks inside the quotes do. A bare
+//	      name is taken literally (no escapes). The same holds for or / enum / allOf and inside members.
 //
 // KNOWN FINDING recognised structurally: K-C08-ref-type-or — on a `@t` example node
 // a user-written `type` rule bypasses the duplicate check: the rules {type: "@t" (the
@@ -1294,7 +1321,7 @@ const (
 	nOps
 )
 
-var opNames = []string{"UsedUserTypes()", `AddType("@u", New("@u", "\"u\""))`, `AddType("@t", …)`, `AddType("@o", …)`, "Len()", "GetAST()", "Example()", "Check()",
+var opNames = []string{"UsedUserTypes()", `AddType("@u", New("@u", "u" in quotes))`, `AddType("@t", …)`, `AddType("@o", …)`, "Len()", "GetAST()", "Example()", "Check()",
 	`Validate(json "1")`, "Build()"}
 
 // randomHistory: 1-5 calls. Calls that compile the schema (GetAST, Example, Check, Validate, Build) come
@@ -1842,7 +1869,10 @@ const ruleText = "node contexts {root, object property, array item} x {integer, 
 	"(15 literal rules + or + enum + allOf + an unknown name) with 2-14 parameter choices each (in-range, boundary, out-of-range relative to the example; false-valued booleans; ordered/equal/reversed pairs); " +
 	"quick: all single rules x all parameters x all contexts, sampled sets of size 2-3 (60% drawn from the rules relevant to the node kind), sampled sets with one duplicated rule; " +
 	"thorough: also sizes 4-6 and random larger; every set is checked in ALL orderings (<=4 rules) or 24 sampled orderings; " +
-	"rule names spelled bare, quoted or mixed (40%/20%/40%), also inside or rule-sets; checks: verdict equal across orderings, equal for all-bare and all-quoted spelling, and equal to the specification predicate rulesOK (which does not see the spelling); nontrivial = at least 2 rules (orderings exist)"
+	"rule names spelled bare, quoted, quoted with JSON escapes or mixed, also inside or rule-sets; near-miss names (17 ways to write a name that is not the rule: inner blanks, case, junk/missing/doubled letter, escaped blank/tab, escape in a bare name, empty, quoted twice) " +
+	"for every rule name in an otherwise accepted set and on 8% of the sampled sets; generated or values = anchor member of the example's kind + 1-2 rule-set members over the companion matrix (pairs, exclusive flags, precision/decimal, format types, any/@t/enum with foreign rules, unknown/near-miss/duplicated/misplaced rules), member rules reordered too; " +
+	"every case under both configurations (default / KeysAreOptionalByDefault) and once more after a random history of 1-6 other API calls on the same object; " +
+	"checks: verdict equal across orderings, spellings, configurations and call histories (history: also the error code), and equal to the specification predicate rulesOK (which does not see spelling, option or history); nontrivial = at least 2 rules, or an or value with a multi-rule member (orderings exist)"
 
 // Run is the entry point of `vh c08-rules`.
 func Run(args []string) {
